@@ -48,6 +48,16 @@ end
 
 end V3
 
+/-- 3×3 matrix by rows -/
+structure M3 (K : Type) where
+  r0 : V3 K
+  r1 : V3 K
+  r2 : V3 K
+
+def M3.mulVec {K : Type} [Add K] [Mul K] (m : M3 K) (v : V3 K) : V3 K :=
+  ⟨m.r0.x * v.x + m.r0.y * v.y + m.r0.z * v.z, m.r1.x * v.x + m.r1.y * v.y + m.r1.z * v.z,
+   m.r2.x * v.x + m.r2.y * v.y + m.r2.z * v.z⟩
+
 /-- a structured mesh `[nx, ny, 3]`: chordwise index first, spanwise second -/
 abbrev Mesh (K : Type) := Nat → Nat → V3 K
 
